@@ -273,6 +273,7 @@ EXPORT char *_strtok_s_chk(char *restrict dest, rsize_t *restrict dmaxp,
          */
         slen = STRTOK_DELIM_MAX_LEN;
         pt = delim;
+        ptoken = dest; /* a token starts here unless *dest is a delimiter */
         while (*pt != '\0') {
 
             if (unlikely(slen == 0)) {
@@ -303,6 +304,7 @@ EXPORT char *_strtok_s_chk(char *restrict dest, rsize_t *restrict dmaxp,
      * need to continue the scan.
      */
     if (ptoken == NULL) {
+        *ptr = dest; /* continue (and stop) at the terminator */
         *dmaxp = dlen;
         return (ptoken);
     }
@@ -315,7 +317,6 @@ EXPORT char *_strtok_s_chk(char *restrict dest, rsize_t *restrict dmaxp,
         if (unlikely(dlen == 0)) {
             *ptr = NULL;
             *dmaxp = 0;
-            *dest = '\0';
             invoke_safe_str_constraint_handler("strtok_s: dest is unterminated",
                                                dest, ESUNTERM);
             errno = ESUNTERM;
@@ -357,6 +358,7 @@ EXPORT char *_strtok_s_chk(char *restrict dest, rsize_t *restrict dmaxp,
         dlen--;
     }
 
+    *ptr = dest; /* the token ended at the terminator: nothing follows */
     *dmaxp = dlen;
     return (ptoken);
 }
